@@ -811,7 +811,12 @@ class Interp:
             tt = [x.term for x in vals]
             term = ("phi",) + tuple(t for t in tt) if all(t is not None for t in tt) and len(tt) <= 4 else None
             return FloatVal(vals[0].bits, const=consts.pop() if len(consts) == 1 else None, term=term, deps=d, lo=lo, hi=hi)
-        if len(vals) > self.opts.get("choice_join_threshold", 6) and all(isinstance(x, IntVal) for x in vals) and len(set(x.ty.key() for x in vals)) == 1:
+        thr = self.opts.get("choice_join_threshold", 6)
+        if all(isinstance(x, IntVal) for x in vals) and any(x.lin is not None and not x.is_const() for x in vals):
+            # alternatives with exact symbolic forms (each under its own condition) carry information a join would destroy:
+            # they are kept apart much longer than alternatives that are plain constants
+            thr = self.opts.get("choice_join_threshold_exact", 96)
+        if len(vals) > thr and all(isinstance(x, IntVal) for x in vals) and len(set(x.ty.key() for x in vals)) == 1:
             out = vals[0]
             for x in vals[1:]:
                 out = join_int(out, x)
@@ -1835,13 +1840,33 @@ class Interp:
         dd = d
         if dd.vals is None and dd.hi - dd.lo <= 255:
             dd = dd.with_(vals=frozenset(range(dd.lo, dd.hi + 1)))
+        # values that share a target block (or-patterns such as `1 | 2 | 3`) form ONE branch whose value is refined to the set,
+        # exactly like a range pattern would be - not one path per value with the value turned into a constant
+        groups = {}
+        order = []
         for v, b in targets:
             sv = _switch_val(dd.ty, v)
             covered.add(sv)
             if sv < dd.lo or sv > dd.hi or (dd.vals is not None and sv not in dd.vals):
                 continue
+            if b not in groups:
+                groups[b] = []
+                order.append(b)
+            groups[b].append(sv)
+        for b in order:
+            svs = groups[b]
             s = st.copy()
-            if self.assume_cmp(s, "Eq", self.current(s, d), IntVal.const(d.ty, sv)):
+            if len(svs) == 1 or d.bits is None or not all(e is not None for e in d.bits) or d.ty.signed:
+                for sv in svs:
+                    s1 = st.copy() if len(svs) > 1 else s
+                    if self.assume_cmp(s1, "Eq", self.current(s1, d), IntVal.const(d.ty, sv)):
+                        self.goto(s1, s1.top(), b)
+                        outs.append(s1)
+                continue
+            grp = frozenset(svs)
+            nv = d.with_(vals=grp, lo=min(grp), hi=max(grp))
+            self.replace_vid(s, d.vid, nv)
+            if s.pc.add_vals(d.bits, grp):
                 self.goto(s, s.top(), b)
                 outs.append(s)
         # otherwise
